@@ -14,7 +14,8 @@ from fimverif.engines import store
 
 ID = "C06"
 CLASSES = ["NetworkNode", "Component", "NetworkService", "ConnectionPoint", "Link"]
-RELS = ["has", "connects", "depends"]
+# (the third relation's name contains the second's: relation names are compared, never searched)
+RELS = ["has", "connects", "connects_to"]
 RULE = ("Typed graphs: exhaustive enumeration of all graphs with <=3 (quick) / <=4 (thorough) nodes over 2 classes "
         "x {no edge, 2 relations} per node pair, plus Hypothesis-generated graphs of 4-8 nodes over 5 FIM classes and "
         "3 relations, optionally with a decoy graph re-using the NodeIDs in the same store and (shared store) a "
